@@ -2,7 +2,7 @@
 from ..report import Check
 from ..lexer import Lexer, Keywords
 from ..callgraph import CallGraph
-from ..rules import lalr, optable
+from ..rules import lalr, optable, scopes
 
 
 def run(F, G, tier, seed):
@@ -14,6 +14,9 @@ def run(F, G, tier, seed):
     lalr.run(chk, F, G, L, K)
     optable.run(chk, F, G, L, K, CallGraph(F))
     optable.run_literals(chk, F, L)
+    # identifier binding is C07's subject; the one clause that is about the *tree* an expression parse hands out is that
+    # the symbol of an IDENTIFIER node is resolved in the scope current at that moment, not taken from a cache
+    scopes.no_symbol_cache(chk, F)
     return chk.finish(
         "Decides the grouping clause of C02 for ALL nesting depths: an LR parser's shift/reduce decision depends "
         "only on (state, look-ahead), so checking every automaton state that holds a completed right-open operator "
